@@ -188,3 +188,9 @@ def run(ctx):
         ctx.oblige(ok, "C01.8", "rewrite_as_snapshot:rename#%d-before-sync" % k,
                    "the replacement log is renamed over the log before its contents are fsynced: a power cut after the rename leaves an empty log, "
                    "and with it every compacted (acknowledged) transaction is gone", r.loc())
+
+    # ---- clause 9: a maintenance writer cannot overwrite an acknowledged commit ----------------------------------------
+    # compact() / checkpoint_on_close() compute the checkpoint and the new published state from the run list; read before the writer
+    # mutex is held, a commit acknowledged in between is dropped from memory and covered by a checkpoint that does not contain it.
+    from .c09 import writer_rmw_rule
+    writer_rmw_rule(ctx, "C01.9")
